@@ -103,8 +103,8 @@ Proof. eexists. eexists. split; [vm_compute; reflexivity|]. split; vm_compute; r
      ORet k i a     : an answer of retract: Answer i IS in the current list of k and is deleted from it;
      ORAll k gone   : retractall: the current list of k without the (distinct, present) Answers gone
    (valid_trace), the database after the run is their fold in execution order, identities stay unique. *)
-Theorem C07_compiled_updates_are_list_operations : forall uf prog n gs s g g' a tr,
-  ids_ok (gdb g) (gid g) -> solve uf prog n gs s g = Some (g', a, tr) ->
+Theorem C07_compiled_updates_are_list_operations : forall uf prog n gs s g g' a tr fl,
+  ids_ok (gdb g) (gid g) -> solve uf prog n gs s g = Some (g', a, tr, fl) ->
   valid_trace (gdb g) (gid g) tr /\ (forall k, gdb g' k = apply_outs tr (gdb g) k) /\ ids_ok (gdb g') (gid g').
 Proof. exact prog_no_lost_update. Qed.
 Print Assumptions C07_compiled_updates_are_list_operations.
@@ -131,16 +131,16 @@ Proof. vm_compute. reflexivity. Qed.
    identity-free specification does not apply - that case is C14's; the operations are then still atomic list
    operations on the current list: C07_compiled_updates_are_list_operations.)  The history is given
    existentially; its shape is described in DbProgSim.v. *)
-Theorem C07_compiled_refines_list_spec : forall uf prog, prog_ok prog -> forall n gs s g g' a tr F,
-  cinv F gs s g -> ids_ok (gdb g) (gid g) -> solve uf prog n gs s g = Some (g', a, tr) ->
+Theorem C07_compiled_refines_list_spec : forall uf prog, prog_ok prog -> forall n gs s g g' a tr fl F,
+  cinv F gs s g -> ids_ok (gdb g) (gid g) -> solve uf prog n gs s g = Some (g', a, tr, fl) ->
   exists evs st' outs, run (match_fact uf) (st_of g) evs = Some (st', outs) /\ Rst g' st' /\ tr_eqv tr (dbouts outs) /\
     forall ops d0, evs = flat_map compile ops -> R d0 (st_of g) ->
       map vis outs = snd (srun (match_fact uf) d0 ops) /\ R (fst (srun (match_fact uf) d0 ops)) st'.
 Proof. exact prog_history_refines_list_spec. Qed.
 Print Assumptions C07_compiled_refines_list_spec.
 
-Theorem C07_compiled_run_is_cursor_history : forall uf prog, prog_ok prog -> forall n gs s g g' a tr F st,
-  cinv F gs s g -> solve uf prog n gs s g = Some (g', a, tr) -> Rst g st ->
+Theorem C07_compiled_run_is_cursor_history : forall uf prog, prog_ok prog -> forall n gs s g g' a tr fl F st,
+  cinv F gs s g -> solve uf prog n gs s g = Some (g', a, tr, fl) -> Rst g st ->
   exists evs st' outs, run (match_fact uf) st evs = Some (st', outs) /\ Rst g' st' /\ tr_eqv tr (dbouts outs).
 Proof. exact prog_run_is_cursor_history. Qed.
 Print Assumptions C07_compiled_run_is_cursor_history.
